@@ -278,6 +278,7 @@ class UnionDefine(StructDefine):
         Alltypes[cls.__name__] = cls
         cls.fields = self.fields
         cls.source = self.source
+        cls.packed = self.packed
         cls.union = -1
         try:
             s = [f.size() for f in cls.fields]
